@@ -20,7 +20,7 @@ REQUIRED = [
     "fact_get_reads_timestamp_first", "fact_check_order", "fact_add_deletes_previous", "fact_expiry_comparisons",
     "fact_update_service_shape", "fact_restart_after_wipe", "fact_service_writers_locked", "fact_loops_visit_everything",
     "fact_comparisons_exact", "fact_exists_key", "fact_background_jobs", "fact_wiring", "fact_store_guards_credential_id",
-    "credential_without_id_refused",
+    "credential_without_id_refused", "fact_set_timestamp_unconditional", "overlapping_polls_heal", "overlapping_polls_can_diverge",
 ]
 
 
@@ -204,6 +204,7 @@ def run(ctx):
     n_restart = 0
     prev_side, noise_ids = None, set()
     n_side = 0
+    inflight, interleaved = 0, False   # responses of overlapping polls in flight; a poll STARTED while another response was in flight
 
     known_sig = {}         # signature -> True if it matches an open known finding
     oracle_known = Counter()
@@ -226,6 +227,7 @@ def run(ctx):
             hist_start, d, prev, t0 = i, op["def"], None, op["t0"]
             epoch_max, accepted, sub_hist, resets, wipes = 0, {}, {}, 0, 0
             prev_side, noise_ids = None, set()
+            inflight, interleaved = 0, False
             continue
         if kind == "get":
             classes["get"] += 1
@@ -245,6 +247,11 @@ def run(ctx):
             continue
         now = op.get("now", t0)
         cls = st["cls"]
+        if kind == "dstart":
+            interleaved = interleaved or inflight > 0
+            inflight += 1
+        elif kind == "dfinish":
+            inflight -= 1
         classes[op.get("class") or kind] += 1
         results[cls] += 1
         if st["S"]["rows"] or st["C"]["rows"]:
@@ -360,6 +367,10 @@ def run(ctx):
             stale = liveC - liveS_lo       # certainly live on the client, not listed by the server
             if S["seed"] != C["seed"] and (S["rows"] or C["rows"]) and op.get("quiet", 0) >= 2:
                 report("C16:replica-seed-differs-after-quiescent-polls", "client seed differs from the server's after two quiescent polls", i)
+            if (missing or stale) and interleaved:
+                report("C16:replica-diverges-after-interleaved-overlapping-polls",
+                       f"two pollers of one client interleaved (a poll started while another response was in flight): client lacks {sorted(missing)}, keeps {sorted(stale)}", i)
+                missing, stale = set(), set()
             if missing:
                 sig = "C16:replica-misses-entry-after-seed-change" if wipes else "C16:replica-misses-entry"
                 report(sig, f"after quiescent polls the client lacks live server entries {sorted(missing)}", i)
